@@ -29,3 +29,24 @@ Proof. intros. unfold gen_follower_commit. lia. Qed.
 (* responses from an earlier term are dropped *)
 Lemma gen_stale_ok : gen_stale_ack_ignored = true.
 Proof. reflexivity. Qed.
+
+(* handle_request_vote grants only to a candidate whose log is at least as up to date as the voter's
+   (higher last term, or equal last term and at least the same last index), whatever the tie-break says *)
+Lemma gen_vote_up_to_date : forall lli llt mli mlt g, gen_vote_log_ok lli llt mli mlt g = true ->
+  N.ltb mlt llt || (N.eqb llt mlt && N.ltb mli lli) || (N.eqb llt mlt && N.eqb lli mli) = true.
+Proof.
+  intros lli llt mli mlt g. unfold gen_vote_log_ok.
+  destruct (N.ltb mlt llt), (N.eqb llt mlt), (N.ltb mli lli), (N.eqb lli mli), g; cbn; intros H; congruence.
+Qed.
+
+(* handle_append_entries accepts the request only if its own entry at prev_log_index has prev_log_term *)
+Lemma gen_prev_sound : forall xt pt, gen_prev_ok xt pt = true -> xt = pt.
+Proof. intros xt pt. unfold gen_prev_ok. intros H. apply N.eqb_eq. exact H. Qed.
+
+(* try_advance_commit_index picks a position that at least a quorum of the sorted values reach *)
+Lemma gen_pick_quorum : forall len qn, gen_commit_pick len qn <= len - qn.
+Proof. intros. unfold gen_commit_pick. lia. Qed.
+
+(* ... and only commits an entry of the leader's current term *)
+Lemma gen_commit_current_term : forall et cur, gen_commit_term_ok et cur = true -> et = cur.
+Proof. intros et cur. unfold gen_commit_term_ok. intros H. apply N.eqb_eq. exact H. Qed.
